@@ -13,6 +13,8 @@ Read from the working tree on every run:
       pendingInit     evloop_init empties pending_signals
       reventsCleared  evloop_io clears .revents of the slot it hands out
       invokeTypeSaved invoke_watch reads watch->type / watch->t before the callback only
+      sigSnapshot     tickit_evloop_invoke_sigwatches walks a snapshot and checks watch_is_linked
+      procSnapshot    on_sigchld does the same
 """
 import re, select
 
@@ -143,6 +145,13 @@ def run(ctx):
                              and not re.search(r"switch\s*\(\s*watch\s*->\s*type", iw)
                              and not re.search(r"watch\s*->\s*t\s*->", iw[iw_call:]))
 
+    # sigSnapshot / procSnapshot: the loop asks watch_is_linked() before it uses an entry of a snapshot
+    sig_snapshot = bool(re.search(r"snapshot_watchlist\s*\(\s*t\s*->\s*signals", sw) and
+                        re.search(r"watch_is_linked\s*\(\s*t\s*->\s*signals", sw))
+    oc = body_of(tk, "on_sigchld") or ""
+    proc_snapshot = bool(re.search(r"snapshot_watchlist\s*\(\s*t\s*->\s*processes", oc) and
+                         re.search(r"watch_is_linked\s*\(\s*t\s*->\s*processes", oc))
+
     def lst(pairs):
         return "[" + ", ".join(f"({a}, {b})" for a, b in pairs) + "]"
 
@@ -170,8 +179,10 @@ def run(ctx):
     body += f"def pendingInit : Bool := {b(pending_init)}\n"
     body += f"def reventsCleared : Bool := {b(revents_cleared)}\n"
     body += f"def invokeTypeSaved : Bool := {b(invoke_type_saved)}\n"
+    body += f"def sigSnapshot : Bool := {b(sig_snapshot)}\n"
+    body += f"def procSnapshot : Bool := {b(proc_snapshot)}\n"
     body += "end Tickit.Gen.EvLoop\n"
     write("EvLoop", body)
     info["evloop"] = {"masks": masks, "timersPop": timers_pop, "errnoSaved": errno_saved, "pendingInit": pending_init,
-                      "reventsCleared": revents_cleared, "invokeTypeSaved": invoke_type_saved, "insertCmp": insert_cmp, "dueCmp": due_cmp,
+                      "reventsCleared": revents_cleared, "invokeTypeSaved": invoke_type_saved, "sigSnapshot": sig_snapshot, "procSnapshot": proc_snapshot, "insertCmp": insert_cmp, "dueCmp": due_cmp,
                       "unreadable": notes}
